@@ -75,7 +75,10 @@ func (c *coalesceOperator) Next(ctx context.Context) ([]model.StepVector, error)
 		return nil, err
 	}
 
-	var out []model.StepVector = nil
+	// Every child writes its batch into its own slot; the batches are merged in
+	// operator order once all children are done, so that the order of samples
+	// within a step does not depend on which goroutine finishes first.
+	var batches = make([][]model.StepVector, len(c.operators))
 	var errChan = make(errorChan, len(c.operators))
 	for idx, o := range c.operators {
 		c.wg.Add(1)
@@ -97,27 +100,7 @@ func (c *coalesceOperator) Next(ctx context.Context) ([]model.StepVector, error)
 					vector.SampleIDs[i] += c.sampleOffsets[opIdx]
 				}
 			}
-
-			c.mu.Lock()
-			defer c.mu.Unlock()
-
-			if len(in) > 0 && out == nil {
-				out = c.pool.GetVectorBatch()
-				for i := 0; i < len(in); i++ {
-					out = append(out, c.pool.GetStepVector(in[i].T))
-				}
-			}
-
-			for i := 0; i < len(in); i++ {
-				if len(in[i].Samples) > 0 {
-					out[i].T = in[i].T
-				}
-
-				out[i].Samples = append(out[i].Samples, in[i].Samples...)
-				out[i].SampleIDs = append(out[i].SampleIDs, in[i].SampleIDs...)
-				o.GetPool().PutStepVector(in[i])
-			}
-			o.GetPool().PutVectors(in)
+			batches[opIdx] = in
 		}(idx, o)
 	}
 	c.wg.Wait()
@@ -125,6 +108,31 @@ func (c *coalesceOperator) Next(ctx context.Context) ([]model.StepVector, error)
 
 	if err := errChan.getError(); err != nil {
 		return nil, err
+	}
+
+	var out []model.StepVector = nil
+	for opIdx, in := range batches {
+		if in == nil {
+			continue
+		}
+		o := c.operators[opIdx]
+		if len(in) > 0 && out == nil {
+			out = c.pool.GetVectorBatch()
+		}
+		for len(out) < len(in) {
+			out = append(out, c.pool.GetStepVector(in[len(out)].T))
+		}
+
+		for i := 0; i < len(in); i++ {
+			if len(in[i].Samples) > 0 {
+				out[i].T = in[i].T
+			}
+
+			out[i].Samples = append(out[i].Samples, in[i].Samples...)
+			out[i].SampleIDs = append(out[i].SampleIDs, in[i].SampleIDs...)
+			o.GetPool().PutStepVector(in[i])
+		}
+		o.GetPool().PutVectors(in)
 	}
 
 	if out == nil {
